@@ -92,8 +92,15 @@ pub assume_specification[Scalar::from_bytes_mod_order](b: [u8; 32]) -> (r: Scala
     ensures r == scalar_mod_order(b@);
 pub assume_specification[Scalar::from_bytes_mod_order_wide](b: &[u8; 64]) -> (r: Scalar)
     ensures r == scalar_mod_order_wide(b@);
-/// a fresh draw: nothing is assumed about the result (in particular not that it is non-zero)
-pub assume_specification<R: rand_core::CryptoRngCore + ?Sized>[Scalar::random::<R>](rng: &mut R) -> (r: Scalar);
+/// provenance marker: true only of values returned by `Scalar::random::<R>` (no axiom establishes it
+/// otherwise), so a contract can pin WHICH random source a nonce or blinding scalar comes from
+pub uninterp spec fn scalar_drawn_from<R: ?Sized>(r: Scalar) -> bool;
+/// a fresh draw: nothing is assumed about the value (in particular not that it is non-zero)
+pub assume_specification<R: rand_core::CryptoRngCore + ?Sized>[Scalar::random::<R>](rng: &mut R) -> (r: Scalar)
+    ensures scalar_drawn_from::<R>(r);
+pub uninterp spec fn scalar_bytes(s: Scalar) -> Seq<u8>;
+pub assume_specification[Scalar::as_bytes](s: &Scalar) -> (r: &[u8; 32])
+    ensures r@ == scalar_bytes(*s);
 
 pub assume_specification[RistrettoPoint::compress](p: &RistrettoPoint) -> (r: CompressedRistretto)
     ensures r == comp(*p);
